@@ -1,4 +1,5 @@
 import Receptor.Model.Work
+import Receptor.Proofs.WorkNode
 import Receptor.Generated.Facts
 /-!
 # C15 — signature-protected work cannot be driven remotely without a valid token
@@ -77,3 +78,102 @@ example : dispatch true .submit true ⟨false, false, true, true⟩ .other ⟨tr
     ∧ dispatch true .cancel true ⟨false, false, true, true⟩ .unix ⟨false, false⟩ true = .effect := by decide
 
 end Receptor.Work
+
+/-! ## over histories -/
+namespace Receptor.WorkNode
+open Receptor.Work
+
+/-- **unauthorised_history_changes_nothing.** Whatever sequence of commands (and restarts) arrives, if each
+of them concerns a verifying work type, comes over something other than the local Unix socket and carries no
+valid token, then at the end the node holds exactly the units it held, unchanged — nothing was created,
+stopped, removed or read — and no command was answered as done. -/
+theorem unauthorised_history_changes_nothing : ∀ (ops : List Op) (n : Node),
+    (∀ c, Op.cmd c ∈ ops → unauthorised n c = true) →
+    (run n ops).1 = n ∧ ∀ o ∈ (run n ops).2, o ≠ .done := by
+  intro ops
+  induction ops with
+  | nil => intro n _; exact ⟨rfl, by simp [run]⟩
+  | cons op rest ih =>
+    intro n h
+    have hrest := ih n (fun c hc => h c (List.mem_cons_of_mem _ hc))
+    cases op with
+    | restart =>
+      simp only [run, step]
+      refine ⟨hrest.1, ?_⟩
+      intro o ho
+      simp only [List.mem_cons] at ho
+      cases ho with
+      | inl h1 => subst h1; simp
+      | inr h1 => exact hrest.2 o h1
+    | cmd c =>
+      obtain ⟨h1, h2⟩ := step_unauthorised n c (h c (List.mem_cons_self ..))
+      simp only [run]
+      rw [h1]
+      refine ⟨hrest.1, ?_⟩
+      intro o ho
+      simp only [List.mem_cons] at ho
+      cases ho with
+      | inl h1 => subst h1; exact h2
+      | inr h1 => exact hrest.2 o h1
+
+/-- **every_effect_is_authorised.** In every history, from every state: wherever the node changed or a command
+was answered as done, the command was a submit / cancel / release / force-release / results, and if the work
+type it concerned verifies signatures and it did not come over the local Unix socket, it carried a token that
+is present and valid (correctly signed by the configured key, unexpired, addressed to this node). -/
+theorem every_effect_is_authorised : ∀ (ops : List Op) (n : Node) (p : Node × Cmd), p ∈ effects n ops →
+    gated p.2.sub = true ∧
+    (shouldVerify (cfgFor p.1 p.2) = true → p.2.conn ≠ .unix →
+      p.2.tok.present = true ∧ p.2.tok.valid = true ∧ p.1.key = true) := by
+  intro ops
+  induction ops with
+  | nil => intro n p hp; simp [effects] at hp
+  | cons op rest ih =>
+    intro n p hp
+    cases op with
+    | restart => exact ih n p (by simpa [effects] using hp)
+    | cmd c =>
+      simp only [effects, List.mem_append] at hp
+      cases hp with
+      | inr h1 => exact ih _ p h1
+      | inl h1 =>
+        by_cases hch : (step n (.cmd c)).1 ≠ n ∨ (step n (.cmd c)).2 = .done
+        · simp only [hch, if_true, List.mem_singleton] at h1
+          subst h1
+          have hna : unauthorised n c = false := by
+            cases hu : unauthorised n c with
+            | false => rfl
+            | true =>
+              obtain ⟨e1, e2⟩ := step_unauthorised n c hu
+              cases hch with
+              | inl h => exact absurd e1 h
+              | inr h => exact absurd h e2
+          refine ⟨?_, ?_⟩
+          · cases hg : gated c.sub with
+            | true => rfl
+            | false =>
+              have hd : dispatch true c.sub (findUnit n c.target).isSome (cfgFor n c) c.conn c.tok n.key ≠ .effect :=
+                info_commands_never_effect true c.sub _ _ _ _ _ hg
+              obtain ⟨e1, e2⟩ := step_no_effect n c hd
+              cases hch with
+              | inl h => exact absurd e1 h
+              | inr h => exact absurd h e2
+          · intro hv hc
+            simp only [unauthorised, hv, Bool.true_and] at hna
+            have hc' : (c.conn != Conn.unix) = true := by simp [hc]
+            simp only [hc', Bool.true_and, Bool.not_eq_false', Bool.and_eq_true] at hna
+            exact ⟨hna.1.1, hna.2, hna.1.2⟩
+        · simp [hch] at h1
+
+/-- Non-vacuity: over TCP a verifying type refuses a submit with an expired token and runs one with a valid
+token; the refused one leaves no trace, the accepted one is the only effect of the history. -/
+example :
+    (run {} [.cmd { sub := .submit, cfg := ⟨false, false, true, true⟩, conn := .other, tok := ⟨true, false⟩ },
+             .cmd { sub := .submit, cfg := ⟨false, false, true, true⟩, conn := .other, tok := ⟨true, true⟩ },
+             .cmd { sub := .cancel, target := 0, conn := .other, tok := ⟨false, false⟩ }]).2
+      = [.refused .refuseInvalid, .done, .refused .refuseInvalid]
+    ∧ (effects {} [.cmd { sub := .submit, cfg := ⟨false, false, true, true⟩, conn := .other, tok := ⟨true, false⟩ },
+             .cmd { sub := .submit, cfg := ⟨false, false, true, true⟩, conn := .other, tok := ⟨true, true⟩ },
+             .cmd { sub := .cancel, target := 0, conn := .other, tok := ⟨false, false⟩ }]).length = 1 := by
+  decide
+
+end Receptor.WorkNode
